@@ -569,6 +569,30 @@ def apply_op(op, pool, ctx, spec):
         return [{"obj": res, "ref": sum(it["ref"] for it in items), "s": sum(it["s"] for it in items),
                  "a": sum(it["a"] for it in items), "why": "mksum"}], True
 
+    if name == "mkprod1":
+        # product with a single factor ("an arbitrary number of tensors"), by default a plain ndarray, and a sum which has
+        # that product as its FIRST term; the factor, the product and the sum all enter the pool, so every later step
+        # re-expands all three
+        if op.get("full", True) and fa != "full":
+            F = {"obj": np.array(A["ref"], dtype=float, copy=True), "ref": A["ref"], "s": rd.fro(A["ref"]), "a": 0.0,
+                 "why": "mkprod1:factor"}
+            new = [F]
+        else:
+            F, new = A, []
+        P = {"obj": ctx.sut(T.TensorProd, F["obj"], what="TensorProd(single factor)"), "ref": F["ref"], "s": F["s"],
+             "a": F["a"], "why": "mkprod1"}
+        new.append(P)
+        B, _ = _same_shape_partner(pool, op, F["ref"].shape, ctx)
+        if op.get("minus"):
+            S = ctx.sut(lambda: P["obj"] - B["obj"], what="TensorProd - tensor")
+            ref = F["ref"] - B["ref"]
+        else:
+            S = ctx.sut(lambda: P["obj"] + B["obj"], what="TensorProd + tensor")
+            ref = F["ref"] + B["ref"]
+        new.append({"obj": S, "ref": ref, "s": F["s"] + B["s"], "a": F["a"] + B["a"], "why": "mkprod1:sum"})
+        ctx.flag("mkprod1:%s,%s" % (fmt_of(F["obj"]), fmt_of(B["obj"])))
+        return new, True
+
     if name == "mkprod":
         B = _pick(pool, op.get("b") or 0)
         if op.get("vec") is not None:
@@ -798,6 +822,12 @@ def run_opseq(spec, ctx):
             if again.shape != it["last"].shape or not np.array_equal(again, it["last"]):
                 raise Violation("operand_modified", "an earlier tensor (created by %s) changed after operation %s"
                                 % (it.get("why"), op["op"]))
+    # ... and at the end every entry (incl. the newest) is expanded once more: a first expansion may not change the object
+    for it in pool:
+        again = _asarray(ctx, it["obj"], what="final re-expansion")
+        if again.shape != it["last"].shape or not np.array_equal(again, it["last"]):
+            raise Violation("operand_modified", "a tensor (created by %s) expands to a different array the second time / "
+                            "after later expansions of tensors built from it" % it.get("why"))
     ctx.flag("effective_steps:%d" % min(effective, 9))
     flags = ctx.flags
     ctx.nontrivial = bool((effective >= 3 and len(formats) >= 2) or ctx.notes.get("stepneg")
@@ -830,18 +860,21 @@ def st_desc(draw, with_shape=True, maxorder=4):
 
 OPS_WEIGHTED = (["getitem"] * 6 + ["add"] * 4 + ["sub"] * 4 + ["neg"] * 2 + ["squeeze"] * 2 + ["nway"] * 3
                 + ["pad"] * 2 + ["to_tucker"] * 2 + ["to_canon"] * 2 + ["orth"] * 2 + ["compress"] * 3
-                + ["truncate"] * 2 + ["join"] * 2 + ["norm"] * 3 + ["copy"] + ["mksum"] * 2 + ["mkprod"] * 2)
+                + ["truncate"] * 2 + ["join"] * 2 + ["norm"] * 3 + ["copy"] + ["mksum"] * 2 + ["mkprod"] * 2 + ["mkprod1"] * 2)
 
 
 @st.composite
 def st_op(draw):
     name = draw(st.sampled_from(OPS_WEIGHTED))
     op = {"op": name, "a": draw(st.integers(-6, 11))}     # negative: counted from the newest pool entry
-    if name in ("add", "sub", "join", "mksum"):
+    if name in ("add", "sub", "join", "mksum", "mkprod1"):
         op["b"] = draw(st.one_of(st.none(), st.integers(-6, 11)))
         op["fresh"] = draw(st_desc(with_shape=False))
         if name == "mksum":
             op["n"] = draw(st.sampled_from([0, 1, 1, 2]))
+        if name == "mkprod1":
+            op["full"] = draw(st.sampled_from([True, True, True, False]))
+            op["minus"] = draw(st.booleans())
     elif name == "getitem":
         op["index"] = draw(st_index())
     elif name == "squeeze":
